@@ -285,7 +285,8 @@ func (w *World) doRawEntry() {
 	for i := range picks {
 		picks[i] = r.Choose("raw-pick", 1<<16)
 	}
-	clockT := r.Choose("raw-clock", 1<<20)
+	// clock times of every magnitude (the signed and the stored form must both keep every bit)
+	clockT := (1 << uint(r.Choose("raw-clock-exp", 62))) + r.Choose("raw-clock", 1<<10) - 1
 	ver := 1 + r.Choose("raw-v", 2)
 	idMode := r.Choose("raw-identity", 3)
 	if n == nil {
